@@ -66,6 +66,11 @@ def gen(rng, ctx):
         cd = G.rand_circuit(rng, ni, rng.randint(1, 9 if not big else 14), max_fanin=5, p_wide=0.3, p_const=rng.choice([0.0, 0.4]), p_input_output=rng.choice([0.0, 0.2]), p_const_output=0.2)
         if rng.random() < 0.4:
             cd = G.add_blackboxes(rng, cd, rng.randint(1, 2), p_unconnected=rng.choice([0.0, 0.4]))
+        if rng.random() < 0.08:
+            # no primary input at all (constants / blackbox outputs are the only sources)
+            cd["nodes"] = [[n, (rng.choice(["0", "1"]) if t == "input" else t), False if t == "input" else o] for n, t, o in cd["nodes"]]
+            if not any(o for _, _, o in cd["nodes"]):
+                cd["nodes"][-1][2] = True
         return {"src": "writer", "c": cd}
     nl = N.gen_netlist(rng, "fast", max_stmts=10 if not big else 16, max_inputs=5)
     if rng.random() < 0.12:
@@ -155,6 +160,8 @@ def check(case, ctx):
         ctx.count("with_blackboxes")
     if ns.inputs() & ns.outputs:
         ctx.count("input_is_output")
+    if not ns.inputs():
+        ctx.count("no_primary_inputs")
 
     def blame():
         if ast is None:
@@ -206,5 +213,5 @@ def check(case, ctx):
 
 
 def gates(counters, table, tier):
-    need = ["input_is_output", "nets_named_like_constants", "src:ast", "src:writer", "src:lib", "with_constants", "unconnected_pins", "with_blackboxes", "graphs_identical", "functions_compared", "lib:c17", "lib:s27"]
+    need = ["no_primary_inputs", "input_is_output", "nets_named_like_constants", "src:ast", "src:writer", "src:lib", "with_constants", "unconnected_pins", "with_blackboxes", "graphs_identical", "functions_compared", "lib:c17", "lib:s27"]
     return [f"{k} seen {counters.get(k, 0)} times" for k in need if counters.get(k, 0) < 2]
